@@ -271,11 +271,11 @@ theorem refresh_once {s : St} {slot : Slot} {r : RefSt} (hg : getRef s slot = so
 
 /-- the slot of the j-th BIND pick depends only on j and the number of slots -/
 theorem rrSlot_succ (j n : Nat) :
-    rrSlot (j + 1) n = ((2^32 - 1 + j + 1) % 2^32) % n := rfl
+    rrSlot (j + 1) n = ((2^64 - 1 + j + 1) % 2^64) % n := rfl
 
 /-- successive BIND picks walk the slots cyclically while the cursor does not wrap -/
-theorem rr_next_slot (rr n : Nat) (hn : 0 < n) (hw : rr + 1 < 2 ^ 32) :
-    ((rr + 1) % 2 ^ 32) % n = (rr % n + 1) % n := by
+theorem rr_next_slot (rr n : Nat) (hn : 0 < n) (hw : rr + 1 < 2 ^ 64) :
+    ((rr + 1) % 2 ^ 64) % n = (rr % n + 1) % n := by
   rw [Nat.mod_eq_of_lt hw, Nat.add_mod]
   by_cases h1 : n = 1
   · subst h1; simp
